@@ -926,10 +926,10 @@ def validate_shims():
 
 def obligations(tier):
     quick = tier == "quick"
-    n_tls, n_dtls = (12, 27) if quick else (14, 29)
+    n_tls, n_dtls = (16, 29) if quick else (20, 32)
     smax, rmax = (9, 3) if quick else (11, 4)
-    r_tls, r_dtls = (16, 15) if quick else (21, 20)
-    e_max = int(__import__("os").environ.get("C13_EMAX", 0)) or (13 if quick else 16)
+    r_tls, r_dtls = (17, 16) if quick else (21, 20)
+    e_max = int(__import__("os").environ.get("C13_EMAX", 0)) or (14 if quick else 16)
     return [
         Concrete("shim-validation", validate_shims, bounds="struct / BytesIO / KaitaiStream / range models == real C helpers on every truncation of two reference hellos",
                  encoded=[]),
@@ -966,8 +966,8 @@ def obligations(tier):
                     "as extensions area, vs strict reference parser (SNI names of <= 1 symbolic byte evaluated)",
              encoded=ENCODED[4:5] + ENCODED[9:15], must_reach=["accepted", "ref-accepts", "with-extensions", "with-sni", "with-alpn", "both-reject", "sni-must-equal", "lenient-accept"],
              stubs=STUBS, parallel_depth=5),
-        Symx("extension-bytes-dtls", shimmed(lambda X: h_hello_bytes(X, True, e_max - 2, ext_only=True)),
-             bounds=f"same for DTLS, extensions area 0..{e_max - 2} bytes",
+        Symx("extension-bytes-dtls", shimmed(lambda X: h_hello_bytes(X, True, e_max - 1, ext_only=True)),
+             bounds=f"same for DTLS, extensions area 0..{e_max - 1} bytes",
              encoded=ENCODED[7:8] + ENCODED[9:16], must_reach=["accepted", "ref-accepts", "with-extensions", "with-sni", "with-alpn", "both-reject", "lenient-accept"],
              stubs=STUBS, parallel_depth=5),
         Symx("differential", shimmed(lambda X: h_differential(X, tier)),
